@@ -827,6 +827,44 @@ def leaf_value(l, env=None):
     return frac(env[0]) if l[1] == "x" else frac(env[1])
 
 
+def check_constants(run, consts):
+    """a bare constant must convert EXACTLY (to the nearest double) in both directions, alone and inside a
+    product / sum / comparison with a variable: the 1e-9*max(1,|v|) tolerance of the tree comparison would let a
+    converter snap 2^-30 to 0 or 1 + 2^-30 to 1 (found by a seeded change)"""
+    sp, ca, S = _W["sp"], _W["ca"], _W["sym"]
+    if not consts:
+        raise MachineryError("vacuous coverage: no constant-fidelity vectors")
+    x = ca.SX.sym("x"); X = sp.Symbol("x")
+    for tree, exp in consts:
+        if exp[0] != "val":
+            raise MachineryError(f"constant leaf without exact value: {tree}")
+        v = Fraction(exp[1], exp[2]); fv = float(v)
+        run.count("evaluations", 6)
+        data = {"tree": tree, "exact": [exp[1], exp[2]]}
+        # casadi -> sympy
+        for name, e, at, want in (("alone", ca.SX(fv), None, v), ("times_x", ca.SX(fv) * x, Fraction(3), 3 * v),
+                                  ("x_plus", x + ca.SX(fv), Fraction(0), v)):
+            try:
+                s = S.casadi_to_sympy(e, {})
+                got = Fraction(float(sp.N(sp.sympify(s).subs({sp.Symbol("x"): sp.Rational(at.numerator, at.denominator)}) if at is not None else sp.sympify(s), 30)))
+            except Exception as ex:     # noqa
+                run.violation("casadi_to_sympy/OP_CONST/raises", f"{type(ex).__name__}: {ex}", data); continue
+            if abs(got - Fraction(float(want))) > abs(Fraction(float(want))) * Fraction(1, 10 ** 13):
+                run.violation(f"casadi_to_sympy/OP_CONST/exact/{name}", f"constant {fv!r} became {float(got)!r}", dict(data, got=float(got)))
+        # sympy -> casadi
+        lit = sp.Integer(exp[1]) if exp[2] == 1 else (sp.Float(fv, 17) if tree[0] == "flt" else sp.Rational(exp[1], exp[2]))
+        for name, E, at, want in (("alone", lit, None, v), ("times_x", lit * X, Fraction(3), 3 * v), ("x_plus", X + lit, Fraction(0), v)):
+            try:
+                c, table = S.sympy_to_casadi(E, symbols={})
+                names = sorted(table)
+                f = ca.Function("f", [table[n] for n in names], [ca.SX(c)])
+                got = Fraction(float(f(*[float(at) for _ in names]))) if names else Fraction(float(ca.DM(ca.SX(c))))
+            except Exception as ex:     # noqa
+                run.violation("sympy_to_casadi/constant/raises", f"{type(ex).__name__}: {ex}", data); continue
+            if abs(got - Fraction(float(want))) > abs(Fraction(float(want))) * Fraction(1, 10 ** 13):
+                run.violation(f"sympy_to_casadi/constant/exact/{name}", f"constant {fv!r} became {float(got)!r}", dict(data, got=float(got)))
+
+
 def main():
     tier = sys.argv[1] if len(sys.argv) > 1 else "quick"
     run = Run(PID, tier)
@@ -859,6 +897,7 @@ def main():
     run.add_tlc("Expr", res)
     bytree = collections.OrderedDict()
     mats = collections.OrderedDict()
+    consts = []
     nstates = 0
     tags = collections.Counter()
     cells = collections.Counter()
@@ -869,6 +908,9 @@ def main():
         nstates += 1
         if tv["op"] == "mat":
             mats.setdefault(tv["tree"], []).append((tv["env"], tv["exp"]))
+            continue
+        if tv["op"] == "const":
+            consts.append((tv["tree"], tv["exp"]))
             continue
         tree = tv["tree"]
         bytree.setdefault((tree, tv["nf"]), []).append((tv["env"], tv["exp"]))
@@ -886,6 +928,7 @@ def main():
             cells[f"{t}:{tv['exp'][1]}"] += 1
         if t == "ite" and tv["exp"][0] == "val":
             cells["ite:val"] += 1
+    check_constants(run, consts)
     items = [(i, tree, nf, envs) for i, ((tree, nf), envs) in enumerate(bytree.items())]
     for i in (0, len(items) // 3, 2 * len(items) // 3, len(items) - 1):
         run.sample({"tree": items[i][1], "env": items[i][3][0][0], "exp": items[i][3][0][1]})
